@@ -12,6 +12,10 @@ Confirm a seeded change independently, then run the registered checks against it
 import sys, os, subprocess, json, shutil, re, time
 
 V = os.path.dirname(os.path.dirname(os.path.abspath(__file__)))
+# Isolation: when M17_REPO points at a scratch clone of /repo (and this script runs from a scratch copy of /verif) the patch is applied to the
+# clone, the checks read the clone (tools/lib/core.py honours M17_REPO), and /repo itself is never touched, so the main tree stays usable.
+REPO = os.environ.get("M17_REPO", "/repo")
+DEST = os.environ.get("SEED_DEST", V)      # where seeded/<id>/ is stored (the real /verif)
 
 
 def sh(cmd, cwd=None, timeout=3600):
@@ -31,8 +35,8 @@ def main():
     sid, src, props = sys.argv[1], sys.argv[2], sys.argv[3].split(",")
     needs = sys.argv[5] if len(sys.argv) > 5 and sys.argv[4] == "--needs" else ""
     wt = f"/tmp/seedverify-{sid}"
-    sh(f"git -C /repo worktree remove --force {wt}")
-    rc, out = sh(f"git -C /repo worktree add --detach {wt} HEAD")
+    sh(f"git -C {REPO} worktree remove --force {wt}")
+    rc, out = sh(f"git -C {REPO} worktree add --detach {wt} HEAD")
     meta = {"id": sid, "breaks": props, "needs": needs, "ran": []}
     try:
         base = ctest(wt)
@@ -56,15 +60,15 @@ def main():
         confirmed = (base == mut) and rc0 == 0 and rc1 != 0 and len(base) > 50
         meta["confirmed"] = confirmed
     finally:
-        sh(f"git -C /repo worktree remove --force {wt}")
+        sh(f"git -C {REPO} worktree remove --force {wt}")
         shutil.rmtree(wt, ignore_errors=True)
     if not meta.get("confirmed"):
         print(f"[{sid}] NOT confirmed; not kept"); print(json.dumps(meta, indent=1)[:1500]); return 1
     # run the checks against /repo with the patch applied
-    rc, out = sh(f"git -C /repo status --porcelain --untracked-files=no")
+    rc, out = sh(f"git -C {REPO} status --porcelain --untracked-files=no")
     if out.strip():
-        print("/repo has local modifications; refusing"); return 2
-    rc, out = sh(f"git -C /repo apply {os.path.abspath(src)}/patch.diff")
+        print(f"{REPO} has local modifications; refusing"); return 2
+    rc, out = sh(f"git -C {REPO} apply {os.path.abspath(src)}/patch.diff")
     try:
         for p in props:
             t0 = time.time()
@@ -75,9 +79,9 @@ def main():
                                 "wall_s": round(time.time() - t0, 1)})
             print(f"[{sid}] check {p}: exit {rc}; {viol[:1]} {why[:2]}")
     finally:
-        sh("git -C /repo checkout -- .")
+        sh(f"git -C {REPO} checkout -- .")
     meta["detected_by"] = [r["check"] for r in meta["ran"] if r["exit"] == 1 and r["violation_lines"]]
-    dst = os.path.join(V, "seeded", sid)
+    dst = os.path.join(DEST, "seeded", sid)
     os.makedirs(dst, exist_ok=True)
     extra_files = [f for f in os.listdir(src) if f.endswith((".h", ".hpp", ".inc")) and os.path.isfile(os.path.join(src, f))]
     for f in ["patch.diff", "demo.cpp", "notes.md"] + extra_files:
